@@ -100,3 +100,28 @@ def gen_access(repo):
             f"/-- `ParquetFile.head` (line {head.lineno}): the index used after the loop is bound before it -/\n"
             f"def headInitialisesI : Bool := {'true' if bound else 'false'}\n"
             "end PqV.Gen.Access\n")
+
+
+@register("Stats")
+def gen_stats(repo):
+    """write_column: does the categorical statistics branch order the labels by category position
+    (`.as_ordered()`) or by the label values themselves?"""
+    src = open(os.path.join(repo, "fastparquet", "writer.py")).read()
+    fn = find_func(ast.parse(src), "write_column")
+    branch = None
+    for node in ast.walk(fn):
+        if isinstance(node, ast.If) and "CategoricalDtype" in ast.dump(node.test) and "stats" in ast.dump(node.test):
+            branch = node
+            break
+    if branch is None:
+        raise Unsupported("categorical statistics branch of write_column not found")
+    body_src = "\n".join(ast.unparse(s) for s in branch.body)
+    uses_cat_order = "as_ordered" in body_src
+    takes_labels = "categories[" in body_src
+    if not uses_cat_order and not takes_labels:
+        raise Unsupported("categorical statistics branch has an unknown shape: " + body_src[:120])
+    return ("-- REGENERATED on every run by tools/translate_callsites.py from fastparquet/writer.py — do not edit\n"
+            "namespace PqV.Gen.Stats\n"
+            f"/-- categorical branch of `write_column` (line {branch.lineno}) orders labels by category position -/\n"
+            f"def catUsesCategoryOrder : Bool := {'true' if uses_cat_order else 'false'}\n"
+            "end PqV.Gen.Stats\n")
